@@ -861,3 +861,75 @@ pub fn gen_case(rng: &mut Prng, opts: &GenOpts) -> Case {
         desc,
     }
 }
+
+
+/// One header byte of a clean packet taken through all 256 values (engines `bytesweep`): every
+/// constant a decoder might special-case - a version nibble, a type code, a flag combination, a
+/// length octet - is hit for every layer kind at every header position, which random flips only
+/// sample. Returns the 256 variants of one position of one generated packet.
+pub fn bytesweep(rng: &mut Prng) -> Vec<Case> {
+    let mut o = GenOpts::clean();
+    o.trailing = 3;
+    let base = gen_case(rng, &o);
+    let layers: Vec<(Kind, usize)> = base.recipe.clone().unwrap_or_default();
+    if base.bytes.is_empty() {
+        return Vec::new();
+    }
+    // a position inside the first 44 octets of one of the layers (or anywhere if the recipe is empty)
+    let pos = if layers.is_empty() {
+        rng.usize_below(base.bytes.len().min(64))
+    } else {
+        let (_, off) = layers[rng.usize_below(layers.len())];
+        let end = layers.iter().map(|l| l.1).filter(|x| *x > off).min().unwrap_or(base.bytes.len()).min(off + 44).min(base.bytes.len());
+        if end <= off {
+            return Vec::new();
+        }
+        off + rng.usize_below(end - off)
+    };
+    let mut out = Vec::with_capacity(256);
+    for v in 0..=255u8 {
+        let mut b = base.bytes.clone();
+        b[pos] = v;
+        out.push(Case {
+            bytes: b,
+            start: base.start,
+            recipe: None,
+            desc: format!("{}+byte{}={}", base.desc, pos, v),
+        });
+    }
+    out
+}
+
+
+/// Like `bytesweep`, but one aligned 16 bit word of a header through all 65 536 values: every length
+/// field against the true size, flags + fragment offset, TCP data offset + flags, version/IHL + TOS,
+/// MACsec TCI + short length ... (engines `wordsweep`). Calls `f` for every variant.
+pub fn wordsweep(rng: &mut Prng, mut f: impl FnMut(&Case)) {
+    let mut o = GenOpts::clean();
+    o.trailing = 3;
+    // small packets: the sweep is about header words
+    set_small(true);
+    let base = gen_case(rng, &o);
+    set_small(false);
+    let layers: Vec<(Kind, usize)> = base.recipe.clone().unwrap_or_default();
+    if base.bytes.len() < 2 || layers.is_empty() {
+        return;
+    }
+    let (_, off) = layers[rng.usize_below(layers.len())];
+    let end = layers.iter().map(|l| l.1).filter(|x| *x > off).min().unwrap_or(base.bytes.len()).min(off + 44).min(base.bytes.len());
+    if end < off + 2 {
+        return;
+    }
+    let pos = off + 2 * rng.usize_below((end - off) / 2);
+    let mut c = Case {
+        bytes: base.bytes.clone(),
+        start: base.start,
+        recipe: None,
+        desc: format!("{}+word{}", base.desc, pos),
+    };
+    for v in 0..=65535u16 {
+        c.bytes[pos] = (v >> 8) as u8;
+        c.bytes[pos + 1] = v as u8;
+        f(&c);
+    }
+}
